@@ -140,8 +140,26 @@ fn pick_day(r: &mut Rng, y: i64, m: i64) -> i64 {
     }
 }
 
+/// A time of day in which every field (hour, minute, second, millisecond, microsecond, nanosecond part) is
+/// independently zero or not: whole minutes, whole hours, whole milliseconds, … — the carries and borrows of a
+/// field-by-field decomposition only show on such instants (seeded change C09-6), which a uniform draw never hits.
+pub fn tod_field_pattern(r: &mut Rng) -> i128 {
+    let mut f = |max: u64| -> i128 {
+        match r.below(5) {
+            0 | 1 => 0,
+            2 => 1,
+            3 => max as i128,
+            _ => r.below(max + 1) as i128,
+        }
+    };
+    let (h, m, s) = (f(23), f(59), f(59));
+    let (ms, us, ns) = if f(1) == 0 { (0, 0, 0) } else { (f(999), f(999), f(999)) };
+    ((h * 60 + m) * 60 + s) * 1_000_000_000 + ms * 1_000_000 + us * 1_000 + ns
+}
+
 fn pick_tod(r: &mut Rng) -> i128 {
-    match r.below(12) {
+    match r.below(15) {
+        12 | 13 | 14 => tod_field_pattern(r),
         0 | 1 => 0,
         2 | 3 => LAST_NS,
         4 => 1,
